@@ -6,6 +6,7 @@ import ast
 import re
 import typing as t
 
+from .. import anchors
 from ..cfg import cfg_of, node_exprs, walk_no_nested
 from ..model import AnalysisError, FuncInfo, Model, ancestors, unparse
 from ..norm import Normalizer
@@ -198,7 +199,7 @@ def _top_components(form: str) -> t.List[str]:
 
 def rule_c10_r4(model: Model) -> RuleResult:
     r = RuleResult('C10-R4', 'process-wide state has one owner: _GLOBAL_HANDLERS is written only by register_converter_handler, at import time', floor=2)
-    target = 'pane.convert._GLOBAL_HANDLERS'
+    target = anchors.global_handlers(model)
     owner = 'pane.convert.register_converter_handler'
     writers = 0
     for m in model.modules.values():
@@ -218,7 +219,7 @@ def rule_c10_r4(model: Model) -> RuleResult:
                         if fn is None and isinstance(node, (ast.Assign, ast.AnnAssign)) and isinstance(tg, ast.Name):
                             continue      # the definition itself
                         hit = type(node).__name__
-            elif isinstance(node, ast.Global) and '_GLOBAL_HANDLERS' in node.names:
+            elif isinstance(node, ast.Global) and anchors.short(target) in node.names:
                 hit = 'global'
             if hit:
                 writers += 1
